@@ -4,6 +4,7 @@ import (
 	"context"
 	"errors"
 	"net/http"
+	"strings"
 	"time"
 
 	"github.com/AliceO2Group/Control/core"
@@ -48,22 +49,45 @@ func (s *Sim) RestartLife() error {
 	s.streamMu.Unlock()
 	tm.VerifSetCaller(s)
 	tm.Start(s.ctx)
-	ok := WaitFor(5*time.Second, func() bool {
-		sub := false
-		for _, c := range s.CallsSnapshot()[before:] {
-			if c.Type == "SUBSCRIBE" {
-				sub = true
+	seen := func(reconcileToo bool) func() bool {
+		return func() bool {
+			sub := false
+			for _, c := range s.CallsSnapshot()[before:] {
+				if c.Type == "SUBSCRIBE" {
+					sub = true
+					if !reconcileToo {
+						return true
+					}
+				}
+				if sub && c.Type == "RECONCILE" {
+					return true
+				}
 			}
-			if sub && c.Type == "RECONCILE" {
-				return true
-			}
+			return false
 		}
-		return false
-	})
-	if !ok {
-		return errors.New("simcore: the new life did not subscribe and reconcile")
 	}
+	if !WaitFor(8*time.Second, seen(false)) {
+		return errors.New("simcore: the new life did not subscribe")
+	}
+	// the implicit reconciliation normally follows within a millisecond; its absence is for the
+	// caller to observe, not an error of the simulation
+	WaitFor(500*time.Millisecond, seen(true))
 	return nil
+}
+
+// RunTask sends the TASK_RUNNING update of a task that was launched with Behaviour.Launch =
+// "silent" (so the harness decides when the executor reports; the default answers at once, which
+// can overtake the core's own bookkeeping of the launch).
+func (s *Sim) RunTask(taskId string) bool {
+	s.mu.Lock()
+	lt := s.live[taskId]
+	dead := lt == nil || lt.Terminal
+	s.mu.Unlock()
+	if dead {
+		return false
+	}
+	s.update(lt, mesos.TASK_RUNNING, mesos.TaskStatus_Reason(0), false)
+	return true
 }
 
 // Alive reports whether the current life is still running (a StateError of the subscription
@@ -74,5 +98,16 @@ func (s *Sim) Alive() bool {
 		return false
 	default:
 		return true
+	}
+}
+
+// Delete removes a key of the fake Consul KV (an operator wiping an entry).
+func (c *FakeConsul) Delete(key string) {
+	c.mu.Lock()
+	defer c.mu.Unlock()
+	key = strings.TrimPrefix(key, "/")
+	if _, ok := c.kv[key]; ok {
+		delete(c.kv, key)
+		c.index++
 	}
 }
